@@ -85,6 +85,8 @@ var (
 	padMu    sync.Mutex
 )
 
+func pad2(n int) string { return pad(n) }
+
 func pad(n int) string {
 	padMu.Lock()
 	defer padMu.Unlock()
@@ -341,10 +343,54 @@ func (r *recorder) serverIcpt(ctx context.Context, unmarshal ttrpc.Unmarshaler, 
 	return method(ctx, wrapped)
 }
 
+// mkUpdate is the update the handler returns for container #i: a function of the container
+// alone, so that whoever receives it can tell whether it arrived unchanged.
+func mkUpdate(i int, id string, pad int) *api.ContainerUpdate {
+	u := &api.ContainerUpdate{ContainerId: id}
+	u.SetLinuxMemoryLimit(int64(1000000 + i))
+	u.SetLinuxMemorySwap(int64(2000000 + i))
+	u.SetLinuxCPUShares(uint64(100 + i))
+	u.SetLinuxCPUQuota(int64(50000 + i))
+	u.SetLinuxCPUPeriod(100000)
+	u.SetLinuxCPUSetCPUs("0-" + strconv.Itoa(i%8))
+	u.SetLinuxPidLimits(int64(300 + i))
+	u.AddLinuxHugepageLimit("2MB", uint64(4+i))
+	u.AddLinuxUnified("memory.high", strconv.Itoa(900000+i))
+	if pad > 0 {
+		u.AddLinuxUnified("pad", pad2(pad))
+	}
+	if i%3 == 1 {
+		u.SetIgnoreFailure()
+	}
+	return u
+}
+
+// updBad counts received updates that differ from what the handler returned.
+func updBad(ups []*api.ContainerUpdate, pad int) int {
+	bad := 0
+	for _, u := range ups {
+		i := idxOf(u.GetContainerId(), 'c')
+		if i < 0 || !proto.Equal(u, mkUpdate(i, u.GetContainerId(), pad)) {
+			bad++
+		}
+	}
+	return bad
+}
+
+func updSizes(in *In, k int) [][2]int {
+	n := len(expand(in.Ctrs))
+	var sz []int
+	for i := 0; i < k && i < n; i++ {
+		sz = append(sz, proto.Size(mkUpdate(i, "c"+strconv.Itoa(i), in.UpdPad)))
+	}
+	return compress(sz)
+}
+
 type plugin struct {
 	sync.Mutex
 	onChange func()
 	mode     string
+	updPad   int
 	updates  int
 	pods     []*api.PodSandbox
 	ctrs     []*api.Container
@@ -389,11 +435,13 @@ func (p *plugin) synchronize(_ context.Context, pods []*api.PodSandbox, ctrs []*
 	if p.mode == "error" {
 		return nil, errors.New("verif: handler refuses to synchronize")
 	}
+	if p.mode == "exhausted" {
+		// a plugin may answer with any status; this one is what recalcObjsPerSyncMsg keys on
+		return nil, status.Error(codes.ResourceExhausted, "verif: handler out of some resource")
+	}
 	var ups []*api.ContainerUpdate
 	for i := 0; i < p.updates && i < len(ctrs); i++ {
-		u := &api.ContainerUpdate{ContainerId: ctrs[i].GetId()}
-		u.SetLinuxMemoryLimit(int64(1000 + i))
-		ups = append(ups, u)
+		ups = append(ups, mkUpdate(i, ctrs[i].GetId(), p.updPad))
 		p.returned = append(p.returned, idxOf(ctrs[i].GetId(), 'c'))
 	}
 	return ups, nil
@@ -407,6 +455,15 @@ func (p syncPlugin) Synchronize(ctx context.Context, pods []*api.PodSandbox, ctr
 }
 
 type noSyncPlugin struct{ *plugin }
+
+// caseTimeout is the request timeout of one case: cases that are EXPECTED to end by the request
+// deadline (a reply too large to be sent back) bring their own, short one.
+func caseTimeout(in *In) time.Duration {
+	if in != nil && in.ReqTimeoutMs > 0 {
+		return time.Duration(in.ReqTimeoutMs) * time.Millisecond
+	}
+	return reqTimeout()
+}
 
 func reqTimeout() time.Duration {
 	if s := os.Getenv(timeoutEnv); s != "" {
@@ -464,7 +521,8 @@ func runCase(in *In, dir string) *Obs {
 	obs.PodSizes, obs.CtrSizes = compress(ps), compress(cs)
 
 	rec := &recorder{nObjs: len(pods) + len(ctrs)}
-	pl := &plugin{mode: in.Handler, updates: in.Updates, pods: pods, ctrs: ctrs}
+	pl := &plugin{mode: in.Handler, updates: in.Updates, updPad: in.UpdPad, pods: pods, ctrs: ctrs}
+	obs.UpdSizes = updSizes(in, in.Updates)
 	var pimpl interface{} = syncPlugin{pl}
 	if in.Handler == "none" {
 		pimpl = noSyncPlugin{pl}
@@ -497,7 +555,7 @@ func runCase(in *In, dir string) *Obs {
 	updateFn := func(context.Context, []*nri.ContainerUpdate) ([]*nri.ContainerUpdate, error) {
 		return nil, nil
 	}
-	nri.SetPluginRequestTimeout(reqTimeout())
+	nri.SetPluginRequestTimeout(caseTimeout(in))
 	empty := filepath.Join(dir, "empty")
 	os.MkdirAll(empty, 0o755)
 	r, err := nri.New("verif-c09", "0", syncFn, updateFn,
@@ -528,7 +586,7 @@ func runCase(in *In, dir string) *Obs {
 	startErr := make(chan error, 1)
 	go func() { startErr <- st.Start(ctx) }()
 
-	deadline := time.After(reqTimeout() + 10*time.Second)
+	deadline := time.After(caseTimeout(in) + 10*time.Second)
 	var res syncResult
 	select {
 	case res = <-syncC:
@@ -569,6 +627,7 @@ func runCase(in *In, dir string) *Obs {
 	for _, u := range res.ups {
 		obs.RtUpdates = append(obs.RtUpdates, idxOf(u.GetContainerId(), 'c'))
 	}
+	obs.UpdBad = updBad(res.ups, in.UpdPad)
 	return obs
 }
 
